@@ -408,8 +408,28 @@ class ProgGen:
 
     def cond(self, lbl):
         ch, a = self.ch, self.a
-        k = ch.pick(5, lbl + ".ck")
-        if k == 4:
+        k = ch.pick(6 if self.f.hashing else 5, lbl + ".ck")
+        if k == 5:
+            # comparisons between a hash and sums of hashes / constants: halmos assumes `hash + small offset` never wraps
+            # (a documented modelling assumption); anything else about such sums has to go to the solver
+            i, j = ch.pick(max(self.f.n_inputs, 1), lbl + ".hi"), ch.pick(max(self.f.n_inputs, 1), lbl + ".hj")
+            base = 4 if self.f.selector else 0
+
+            def h(ix):
+                a.push(base + 32 * ix).op("CALLDATALOAD").push(0).op("MSTORE").push(0x20).push(0).op("SHA3")
+
+            form = ch.choose(["sum2", "sum2c", "bigoff", "negoff"], lbl + ".hf")
+            h(i)                      # the hash compared against (created first)
+            if form in ("sum2", "sum2c"):
+                h(j); h(i); a.op("ADD")
+                if form == "sum2c":
+                    a.push(ch.choose([5, 1, 0x100], lbl + ".hc")).op("ADD")
+            elif form == "bigoff":
+                h(i); a.push(ch.choose([1 << 255, (1 << 256) - 1, 1 << 64, (1 << 64) - 1], lbl + ".hc")).op("ADD")
+            else:
+                a.push(ch.choose([1, 2, 0x100], lbl + ".hc")); h(i); a.op("SUB")
+            a.op(ch.choose(["LT", "GT"], lbl + ".cop"))   # top (the sum) < / > the plain hash
+        elif k == 4:
             # switch-like: the same few input words compared with small constants again and again
             a.push(ch.pick(4, lbl + ".sw"))
             self.input_word(lbl)
@@ -441,6 +461,15 @@ class ProgGen:
         else:
             a.push(ch.int(0, 4, lbl + ".ln"))
         a.push(ctr).op("MSTORE")
+        if ch.chance(0.4, lbl + ".dowhile"):
+            # do { body; ctr-- } while (ctr != 0): the loop continuation is the *taken* side of a backward JUMPI
+            a.push(ctr).op("MLOAD").op("ISZERO").jumpi(end)
+            a.label(top)
+            self.block(0, lbl + "B", allow_term=False, max_stmts=2)
+            a.push(1).push(ctr).op("MLOAD").op("SUB").op("DUP1").push(ctr).op("MSTORE")
+            a.jumpi(top)
+            a.label(end)
+            return
         a.label(top)
         a.push(ctr).op("MLOAD").op("ISZERO").jumpi(end)
         self.block(0, lbl + "B", allow_term=False, max_stmts=2)
